@@ -185,17 +185,25 @@ func (w *c43World) poolCIDR(p int) string {
 	}
 	return fmt.Sprintf("10.%d.0.0/24", p)
 }
+
+// c43BlockOff: the two blocks of each pool sit in different quarters of the pool's range, so that
+// over the three pools every quarter (lower/upper half, at two depths) holds a block.
+var c43BlockOff = [3][2]int{{0, 128}, {64, 192}, {128, 192}}
+
+// c43Ord maps the three logical allocation slots to ordinals in both halves of the block.
+var c43Ord = map[int]int{1: 1, 2: 33, 3: 62}
+
 func (w *c43World) blockCIDR(p, b int) string {
 	if w.V == 6 {
-		return fmt.Sprintf("fd10:%d::%x/122", p+1, b*64)
+		return fmt.Sprintf("fd10:%d::%x/122", p+1, c43BlockOff[p][b])
 	}
-	return fmt.Sprintf("10.%d.0.%d/26", p, b*64)
+	return fmt.Sprintf("10.%d.0.%d/26", p, c43BlockOff[p][b])
 }
 func (w *c43World) addr(p, b, o int) string {
 	if w.V == 6 {
-		return fmt.Sprintf("fd10:%d::%x", p+1, b*64+o)
+		return fmt.Sprintf("fd10:%d::%x", p+1, c43BlockOff[p][b]+c43Ord[o])
 	}
-	return fmt.Sprintf("10.%d.0.%d", p, b*64+o)
+	return fmt.Sprintf("10.%d.0.%d", p, c43BlockOff[p][b]+c43Ord[o])
 }
 func (w *c43World) full() string {
 	if w.V == 6 {
@@ -303,8 +311,15 @@ func (w *c43World) blockUpdate(p, b int) api.Update {
 		aff := "host:" + c43Name(blk.Owner)
 		v.Affinity = &aff
 	}
+	slotAt := map[int]int{}
+	for slot, ord := range c43Ord {
+		slotAt[ord] = slot
+	}
 	for o := 0; o < 64; o++ {
-		g, ok := blk.Allocs[o]
+		g, ok := blk.Allocs[slotAt[o]]
+		if _, isSlot := slotAt[o]; !isSlot {
+			ok = false
+		}
 		if !ok {
 			v.Unallocated = append(v.Unallocated, o)
 			continue
@@ -562,7 +577,7 @@ func c43DiffRoutes(a, b map[string]*felixproto.RouteUpdate) string {
 func TestVerifC43Resolver(t *testing.T) {
 	ev.Quiet()
 	rec := ev.New("C43", "resolver",
-		"histories of Node (4 nodes; subnet A/B, both families / one family / no address; address carried by the BGP spec, by InternalIP or ExternalIP entries of the address list with or without prefix length, with absent / empty / tunnel-address-only BGP spec; the way a node carries its address changes in later updates), IPPool (3 pools; IPIP/VXLAN Always/CrossSubnet or no encap; NAT on/off), IPAM block (2 per pool; affinity to any node or none; up to 3 allocations held by any node = borrowed IPs) and local workload endpoint updates/deletions, IPv4 or IPv6, flushes at arbitrary points; each case starts with a populated cluster delivered in a random permutation, followed by changes; non-trivial = final state has a remote block or borrowed address inside a pool AND the history re-ordered or changed something (a node/pool/block was updated or deleted after first being set, or a block arrived before its pool, its owner node or the local node); distinct = distinct op sequence",
+		"histories of Node (4 nodes; subnet A/B, both families / one family / no address; address carried by the BGP spec, by InternalIP or ExternalIP entries of the address list with or without prefix length, with absent / empty / tunnel-address-only BGP spec; the way a node carries its address changes in later updates), IPPool (3 pools; IPIP/VXLAN Always/CrossSubnet or no encap; NAT on/off), IPAM block (2 per pool, placed so that every quarter of a pool's range holds a block; allocations in both halves of the block; affinity to any node or none; up to 3 allocations held by any node = borrowed IPs) and local workload endpoint updates/deletions, IPv4 or IPv6, flushes at arbitrary points; each case starts with a populated cluster delivered in a random permutation, followed by changes; non-trivial = final state has a remote block or borrowed address inside a pool AND the history re-ordered or changed something (a node/pool/block was updated or deleted after first being set, or a block arrived before its pool, its owner node or the local node); distinct = distinct op sequence",
 		"pools are disjoint, node addresses lie outside all pools, one allocation per address (datastore invariants)",
 		"only local workload endpoints are generated (RouteSource=CalicoIPAM registers the resolver for local endpoints only)",
 		"a live local workload's address is always allocated to the local node in an existing block (workloads are deleted before their address is released); without this the resolver's /32 flags depend on arrival order, see report")
@@ -744,6 +759,9 @@ func TestVerifC43Resolver(t *testing.T) {
 					if pb[0] == p {
 						reordered = true
 						classes["pool-after-block"] = true
+						if c43BlockOff[pb[0]][pb[1]] >= 128 {
+							classes["pool-change-after-upper-half-block"] = true
+						}
 					}
 				}
 				w.Pools[p] = drawPool()
@@ -754,6 +772,11 @@ func TestVerifC43Resolver(t *testing.T) {
 				if _, ok := w.Pools[p]; !ok {
 					shape = append(shape, "-")
 					continue
+				}
+				for pb := range w.Blocks {
+					if pb[0] == p && c43BlockOff[pb[0]][pb[1]] >= 128 {
+						classes["pool-delete-after-upper-half-block"] = true
+					}
 				}
 				delete(w.Pools, p)
 				a.send(w.poolUpdate(p))
